@@ -18,7 +18,7 @@ from ..common import Result
 ID = "C14"
 LEVEL = "exploration"
 NEEDS_PTY = True
-N_RUNS = {"quick": 48, "thorough": 1600}
+N_RUNS = {"quick": 48, "thorough": 3200}
 SHARD_TIMEOUT = {"quick": 90, "thorough": 120}
 RULE = (
     "each run is a fresh process tree under a pty: 1..8 threads x 0..3 child processes (x grandchildren) started "
